@@ -108,4 +108,60 @@ class PolarsCheckUnique(_PlCore):
         return out
 
 
+def _standin(which):
+    def run(seed=0, tier="quick"):
+        """run-time contract on the real polars ColumnBackend core check: verdict and row-aligned check_output against the spec above"""
+        import itertools
+        import math
+        import warnings
+
+        import polars as pl
+        import pandera.polars as pp
+        from pandera.backends.polars.components import ColumnBackend
+
+        warnings.simplefilter("ignore")
+        domains = {"text": (["x", "y", None], pl.String), "float": ([1.5, 2.5, float("nan"), None], pl.Float64), "int": ([1, 2, None], pl.Int64)}
+        n = 0
+        bound = "columns of 0-4 rows over {x,y,null} / {1.5,2.5,NaN,null} / {1,2,null}; flag in {True,False}; a second column present"
+        isnull = lambda v, fl: v is None or (fl and isinstance(v, float) and math.isnan(v))  # noqa: E731
+        for dname, (vals, dt) in domains.items():
+            for h in range(0, 5):
+                for rows in itertools.product(vals, repeat=h):
+                    for flag in (True, False):
+                        n += 1
+                        lf = pl.LazyFrame({"a": list(rows), "b": list(range(h))}, schema={"a": dt, "b": pl.Int64})
+                        schema = pp.Column(dt, name="a", nullable=flag if which == "nullable" else True, unique=flag if which == "unique" else False)
+                        fn = getattr(ColumnBackend(), "check_" + which)
+                        try:
+                            rs = fn(lf, schema)
+                        except Exception as e:  # noqa: BLE001
+                            return {"examples": n, "bound": bound, "failing_input": {"a": [repr(r) for r in rows], "flag": flag}, "observed": f"raised {type(e).__name__}: {e}"[:200]}
+                        accepted = all(r.passed for r in rs)
+                        if which == "unique":
+                            key = lambda v: "null" if v is None else ("nan" if isinstance(v, float) and math.isnan(v) else v)  # noqa: E731
+                            ks = [key(v) for v in rows]
+                            dup = [ks.count(k) > 1 for k in ks]
+                            want = (not flag) or not any(dup)
+                            want_out = [not d for d in dup]
+                        else:
+                            bad = [isnull(v, dname == "float") for v in rows]
+                            want = flag or not any(bad)
+                            want_out = [not b for b in bad]
+                        if accepted != want:
+                            return {"examples": n, "bound": bound, "failing_input": {"a": [repr(r) for r in rows], which: flag},
+                                    "observed": {"accepted": accepted, "expected": want}}
+                        for r in rs:
+                            if not r.passed and r.check_output is not None:
+                                co = r.check_output.lazy().collect().get_column(KEY).to_list()
+                                if co != want_out:
+                                    return {"examples": n, "bound": bound, "failing_input": {"a": [repr(r) for r in rows], which: flag},
+                                            "observed": {"check_output": co, "expected": want_out}}
+        return {"examples": n, "bound": bound, "failing_input": None}
+
+    return run
+
+
+PolarsCheckNullable.bounded_standin = staticmethod(_standin("nullable"))
+PolarsCheckUnique.bounded_standin = staticmethod(_standin("unique"))
+
 CONTRACTS = [PolarsCheckNullable, PolarsCheckUnique]
